@@ -23,9 +23,10 @@ from typing import Any, Callable, Dict, Iterable, List, Optional, Tuple
 
 VERIF = Path(__file__).resolve().parents[1]
 REPO = Path(os.environ.get("VERIF_REPO", "/repo"))
-LEAN = VERIF / "lean"
-EVIDENCE = VERIF / "evidence"
-REPLAYS = VERIF / "replays"
+LEAN = Path(os.environ.get("VERIF_LEAN", VERIF / "lean"))  # a private copy when testing against a mutated worktree
+OUT = Path(os.environ.get("VERIF_OUT", VERIF))  # where evidence/ and replays/ go (default: /verif itself)
+EVIDENCE = OUT / "evidence"
+REPLAYS = OUT / "replays"
 CORPUS = VERIF / "corpus"
 KNOWN_FINDINGS = VERIF / "known_findings.json"
 GUARD = "ARIADNE_CODEGEN_VERIF"
@@ -193,19 +194,26 @@ def same_json(a: Any, b: Any, ordered: bool = False) -> bool:
 # --------------------------------------------------------------------------------------------
 
 
-def _lake(args: List[str], timeout: int = 3000) -> Tuple[int, str]:
-    lock_path = LEAN / ".build.lock"
-    with open(lock_path, "w") as lock:
-        fcntl.flock(lock, fcntl.LOCK_EX)
+def _lake(args: List[str], timeout: int = 3000, lock: str = "global") -> Tuple[int, str]:
+    """lake under a file lock.  Builds of *different* properties may run concurrently (lock name =
+    property id); the shared prefix (tables, Json, Wire) is built under the global lock first."""
+    lock_path = LEAN / f".build.{lock}.lock"
+    with open(lock_path, "w") as lk:
+        fcntl.flock(lk, fcntl.LOCK_EX)
         try:
-            p = subprocess.run(
-                ["lake", *args], cwd=LEAN, capture_output=True, text=True, timeout=timeout
-            )
+            p = subprocess.run(["lake", *args], cwd=LEAN, capture_output=True, text=True, timeout=timeout)
         except subprocess.TimeoutExpired as e:
             raise Infra(f"lake {' '.join(args)} timed out") from e
         finally:
-            fcntl.flock(lock, fcntl.LOCK_UN)
+            fcntl.flock(lk, fcntl.LOCK_UN)
     return p.returncode, p.stdout + p.stderr
+
+
+SHARED_PREFIX = ["AriadneModel.Generated.Tables", "AriadneModel.Model.Json", "AriadneModel.Driver.Wire"]
+
+
+def build_shared() -> Tuple[int, str]:
+    return _lake(["build", *SHARED_PREFIX], lock="global")
 
 
 def prop_module(prop: str) -> str:
@@ -332,7 +340,10 @@ def lean_check(ctx: Ctx) -> LeanStatus:
     mod = prop_module(prop)
     if not module_path(mod).exists():
         raise Infra(f"{module_path(mod)} missing")
-    rc, log = _lake(["build", mod])
+    rc0, log0 = build_shared()
+    rc, log = _lake(["build", mod], lock=prop)
+    if rc0 != 0:
+        log = log0 + log
     build_ok = rc == 0
     broken: List[str] = []
     if not build_ok:
@@ -344,7 +355,7 @@ def lean_check(ctx: Ctx) -> LeanStatus:
     driver_ok = False
     dlog = ""
     if has_driver(prop):
-        rc2, dlog = _lake(["build", driver_name(prop)])
+        rc2, dlog = _lake(["build", driver_name(prop)], lock=prop)
         driver_ok = rc2 == 0 and (LEAN / ".lake/build/bin" / driver_name(prop)).exists()
         if not driver_ok:
             for m in re.finditer(r"^error: (\S+\.lean):(\d+):(\d+): (.*)$", dlog, re.M):
@@ -512,7 +523,7 @@ def match_finding(fail: Failure, findings: List[Dict[str, Any]]) -> Optional[Dic
 
 
 def write_replay(prop: str, payload: Dict[str, Any]) -> Path:
-    REPLAYS.mkdir(exist_ok=True)
+    REPLAYS.mkdir(parents=True, exist_ok=True)
     h = stable_hash(payload)
     path = REPLAYS / f"{prop}-{h}.json"
     path.write_text(json.dumps(payload, indent=1, default=repr) + "\n")
@@ -521,13 +532,13 @@ def write_replay(prop: str, payload: Dict[str, Any]) -> Path:
 
 def relpath(p: Path) -> str:
     try:
-        return str(p.relative_to(VERIF))
+        return str(p.relative_to(OUT))
     except ValueError:
         return str(p)
 
 
 def write_evidence(ctx: Ctx, st: Optional[LeanStatus], res: Result, violations: int, extra: Dict[str, Any]) -> None:
-    EVIDENCE.mkdir(exist_ok=True)
+    EVIDENCE.mkdir(parents=True, exist_ok=True)
     obligations = len(st.theorems) if st else 0
     discharged = 0
     if st and st.build_ok:
